@@ -182,6 +182,20 @@ pub fn run_case(input: &[u8], seed: u64, idx: usize) -> (u64, Vec<String>, u64) 
             if log.reads_after_eof > EOF_READ_LIMIT {
                 hangs += 1;
             }
+            // the output side may fail at any byte as well: still an error value, never a panic
+            if s.verdict.is_ok() && !s.out.is_empty() && input.len() <= 65_536 {
+                for _ in 0..2 {
+                    let k = rng.below(s.out.len());
+                    let style = if rng.chance(1, 2) { crate::mon::FaultStyle::ShortThenFail } else { crate::mon::FaultStyle::RejectCrossing };
+                    let mode = if rng.chance(1, 2) { crate::run::Mode::Slice } else { crate::run::Mode::Reader(Sched::Fixed(1 + rng.below(4096))) };
+                    let call = crate::run::Call { input: input.to_vec(), from, mode };
+                    let (v, _) = crate::run::run_history(std::slice::from_ref(&call), to, crate::mon::MonWriter::new().with_fault(k, style), true);
+                    runs += 1;
+                    if let Some(Verdict::Panic(p)) = v.first() {
+                        panics.push(format!("writer failing after {k} bytes ({style:?}) from={} to={}: {p}", fmts::from_name(from), to.name()));
+                    }
+                }
+            }
         }
     }
     (runs, panics, hangs)
@@ -422,7 +436,7 @@ pub fn run(ctx: &Ctx) -> i32 {
     if thorough {
         fuzz_stage(ctx, "totality", 600, "C04", &mut acc);
     }
-    let rule = format!("{} cases in crash-isolated worker processes: 3/4 mixed corpus inputs (valid streams, mutants, splices, seeds, random bytes/tokens), 1/4 adversarial shapes (nesting to {} for JSON/MessagePack/TOML and {} for YAML, unclosed openers, declared lengths up to 2^32-1 on every str/bin/ext/array/map marker, alias bombs, lone anchors/aliases/tags, empty input, valid documents with a node the target must refuse, long scalars and wide collections, numeric edge literals, UTF-16/32 YAML with multi-byte characters on every alignment around 8/16/24/32 KiB of re-encoded text, random bytes); every case x 5 source selections x 4 targets x [slice, reader under a random schedule] on the worker's 8 MiB main-thread stack with an 8 GiB address-space limit; plus a sample of adversarial inputs through the debug and release binaries; distinct non-trivial = distinct non-empty inputs", n, if thorough { 100000 } else { 5000 }, if thorough { 30000 } else { 1200 });
+    let rule = format!("{} cases in crash-isolated worker processes: 3/4 mixed corpus inputs (valid streams, mutants, splices, seeds, random bytes/tokens), 1/4 adversarial shapes (nesting to {} for JSON/MessagePack/TOML and {} for YAML, unclosed openers, declared lengths up to 2^32-1 on every str/bin/ext/array/map marker, alias bombs, lone anchors/aliases/tags, empty input, valid documents with a node the target must refuse, long scalars and wide collections, numeric edge literals, UTF-16/32 YAML with multi-byte characters on every alignment around 8/16/24/32 KiB of re-encoded text, random bytes); every case x 5 source selections x 4 targets x [slice, reader under a random schedule] (+ for translatable inputs two runs with a writer that fails at a random output offset) on the worker's 8 MiB main-thread stack with an 8 GiB address-space limit; plus a sample of adversarial inputs through the debug and release binaries; distinct non-trivial = distinct non-empty inputs", n, if thorough { 100000 } else { 5000 }, if thorough { 30000 } else { 1200 });
     let mut f = Finish { ctx, level: "exploration", rule, assumptions: vec!["'never loops forever' is decided up to a budget: 120 s without progress in a batch, then 900 s alone".into(), "a dead worker is attributed to the case it had announced".into()], extra: serde_json::Map::new(), exhaustive: false, min_distinct: 1000, must_reach: vec![("cases_completed".into(), (n as u64) * 9 / 10), ("binary_sample_exit_0_or_1".into(), 50), ("class_huge_declared_length".into(), 10), ("class_alias_bomb".into(), 10), ("class_reencoded_boundary".into(), 10)] };
     if !acc.violations.is_empty() {
         f.must_reach.clear();
